@@ -50,12 +50,20 @@ def gen_script(rng: Rng, tag: str) -> dict:
         f"NITER = {rng.randint(1, 4)}",
         "",
     ]
-    use_helper = rng.chance(0.4)
+    use_helper = rng.chance(0.5)
     if use_helper:
+        # helpers live in a small set of custom domains at different versions: Opset objects are
+        # process-wide singletons per (class, domain, version), shared by every script in the process
+        if rng.chance(0.6):
+            dom, ver_c = rng.choice(["dsim.custom", "dsim.other"]), rng.randint(1, 3)
+            lines += ["from onnxscript.values import Opset", f"CUSTOM = Opset({dom!r}, {ver_c})", ""]
+            hdec = "@script(CUSTOM)"
+        else:
+            hdec = "@script()"
         lines += [
-            "@script()",
+            hdec,
             f"def helper_{tag}(p: FLOAT['N'], q: FLOAT['N']) -> FLOAT['N']:",
-            f"    return {rng.choice(BINOPS).format('p', 'q')}",
+            f"    return {rng.choice([b for b in BINOPS if b.startswith('op.')]).format('p', 'q')}",
             "",
         ]
     dec = "@DEC" if rng.chance(0.3) else "@script()"
@@ -112,7 +120,7 @@ def gen_script(rng: Rng, tag: str) -> dict:
             sub2 = list(sub)
             rng.shuffle(sub2)
             body += block_assign(sub2, ind * 3, ["x", "y"] + vs)
-    ret = vs[0]
+    ret = f"op.Identity({vs[0]})"
     for v in vs[1:]:
         ret = f"op.Add({ret}, {v})"
     lines += [dec, f"def {fname}(x: FLOAT['N'], y: FLOAT['N']) -> FLOAT['N']:"] + body + [f"{ind}return {ret}", ""]
